@@ -532,7 +532,7 @@ func endianOf(name string) string {
 func analyseMarshal(p *Program, kf *KindFacts) {
 	fn := kf.MarshalFn
 	w := NewWalker(p)
-	w.Inline = func(f *ssa.Function, d int) bool { return false }
+	w.Inline = typesHelpers(p)
 	args := []*Term{{Op: "param", Name: "v", Typ: fn.Params[0].Type()}}
 	paths := w.Walk(fn, args, nil)
 	kf.MPaths = paths
@@ -701,7 +701,7 @@ func analyseUnmarshal(p *Program, kf *KindFacts) {
 	fn := kf.UnmarshalFn
 	run := func(recv *Term) []Path {
 		w := NewWalker(p)
-		w.Inline = func(f *ssa.Function, d int) bool { return false }
+		w.Inline = typesHelpers(p)
 		args := []*Term{recv, {Op: "param", Name: "b", Typ: fn.Params[1].Type()}}
 		return w.Walk(fn, args, nil)
 	}
